@@ -10,7 +10,7 @@
      `BadIndex`; the theorems show neither can happen. *)
 From Coq Require Import ZArith List Bool.
 Import ListNotations.
-Require Import MV.C11.Ext MV.C11.Gen.
+Require Import MV.C11.Ext MV.C11.Heap MV.C11.Gen.
 Open Scope Z_scope.
 
 Inductive res (A : Type) := Ok (a : A) | OutOfFuel | BadIndex.
@@ -92,28 +92,40 @@ Section WithPoints.
   End Build.
 
   (* ------------------------------------------------------------------ query (k nearest) *)
-  Definition cand := (Z * nat)%type.     (* (squared distance, index); the heap `found` as an ascending list *)
+  (* `found` is a mouette PriorityQueue: a heapq array of items (priority, payload) = (-squared distance, index),
+     operated through pq_push / pq_pop / pq_front / pq_empty of Gen.v (the comparator and the plumbing come from
+     priority_queue.py, the sift algorithm is Heap.v's copy of heapq).  n_found = length found. *)
 
-  Fixpoint insert_c (e : cand) (f : list cand) : list cand :=
-    match f with
-    | [] => [e]
-    | x :: t => if Z.ltb (fst e) (fst x) then e :: x :: t else x :: insert_c e t
-    end.
+  (* found.push(idx, -distance(self.points[idx], pt)) *)
+  Definition push_item (q : list Z) (f : list item) (i : nat) : list item :=
+    pq_push f (Z.of_nat i) (- dist2 (pt i) q).
 
-  (* while n_found > k: found.pop()   (pop removes the farthest candidate) *)
-  Fixpoint evict (n : nat) (k : nat) (f : list cand) : list cand :=
+  (* while n_found > k: found.pop()   (pop removes a smallest priority = a farthest candidate) *)
+  Fixpoint evict (n : nat) (k : nat) (f : list item) : list item :=
     match n with
     | O => f
-    | S n' => if knn_evict (length f) k then evict n' k (removelast f) else f
+    | S n' => if knn_evict (length f) k
+              then match pq_pop f with Some (_, f') => evict n' k f' | None => f end
+              else f
     end.
 
-  Definition push_c (q : list Z) (k : nat) (f : list cand) (i : nat) : list cand :=
-    let f1 := insert_c (dist2 (pt i) q, i) f in evict (length f1) k f1.
+  Definition push_c (q : list Z) (k : nat) (f : list item) (i : nat) : list item :=
+    let f1 := push_item q f i in evict (length f1) k f1.
 
-  Definition isnil {A} (l : list A) : bool := match l with [] => true | _ => false end.
+  (* -found.front.priority if (n_found >= k and not found.empty()) else float("inf") *)
+  Definition furthest (k : nat) (f : list item) : ext :=
+    if knn_full (length f) k (pq_empty f)
+    then match pq_front f with Some it => Fin (- fst it) | None => PosInf end
+    else PosInf.
 
-  Definition furthest (k : nat) (f : list cand) : ext :=
-    if knn_full (length f) k (isnil f) then Fin (fst (last f (0, O))) else PosInf.
+  (* [found.pop().x for _ in range(n_found)] *)
+  Fixpoint popall (n : nat) (f : list item) : list item :=
+    match n with
+    | O => []
+    | S n' => match pq_pop f with Some (it, f') => it :: popall n' f' | None => [] end
+    end.
+
+  Definition payload (it : item) : nat := Z.to_nat (snd it).
 
   (* sorted([(dist_left, left), (dist_right, right)]) : ascending, ties by child id *)
   Definition child_order (dl dr : ext) (l r : nat) : list (ext * nat) :=
@@ -123,8 +135,8 @@ Section WithPoints.
   Definition push_children (fsf : ext) (ord : list (ext * nat)) (stack : list nat) : list nat :=
     fold_left (fun st dc => if knn_visit fsf (fst dc) then snd dc :: st else st) ord stack.
 
-  Fixpoint qloop (nodes : list node) (q : list Z) (k : nat) (fuel : nat) (stack : list nat) (found : list cand)
-    : res (list cand) :=
+  Fixpoint qloop (nodes : list node) (q : list Z) (k : nat) (fuel : nat) (stack : list nat) (found : list item)
+    : res (list item) :=
     match stack with
     | [] => Ok found
     | id :: rest =>
@@ -148,7 +160,7 @@ Section WithPoints.
 
   Definition query (nodes : list node) (q : list Z) (k : nat) : res (list nat) :=
     match qloop nodes q k fuel_bound [O] [] with
-    | Ok f => Ok (if knn_result_reversed then map snd f else rev (map snd f))
+    | Ok f => let xs := map payload (popall (length f) f) in Ok (if knn_result_reversed then rev xs else xs)
     | OutOfFuel => OutOfFuel
     | BadIndex => BadIndex
     end.
